@@ -207,6 +207,30 @@ impl Val {
     }
 }
 
+impl Val {
+    /// the other public construction route: Array::try_from_iter (Map has only one)
+    pub fn to_engine_via_iter(&self) -> Result<wirefilter::LhsValue<'static>, String> {
+        use wirefilter::LhsValue as L;
+        Ok(match self {
+            Val::Arr { e, v } => {
+                let mut items = Vec::new();
+                for x in v {
+                    items.push(x.to_engine_via_iter()?);
+                }
+                L::Array(wirefilter::Array::try_from_iter(e.to_engine(), items).map_err(|e| e.to_string())?)
+            }
+            Val::Map { e, v } => {
+                let mut items: Vec<Result<(Box<[u8]>, L<'static>), wirefilter::TypeMismatchError>> = Vec::new();
+                for kv in v {
+                    items.push(Ok((kv.k.clone().into_boxed_slice(), kv.v.to_engine_via_iter()?)));
+                }
+                L::Map(wirefilter::Map::try_from_iter(e.to_engine(), items).map_err(|e: wirefilter::TypeMismatchError| e.to_string())?)
+            }
+            other => other.to_engine()?,
+        })
+    }
+}
+
 #[derive(Clone, Debug, PartialEq, Serialize, Deserialize)]
 pub struct FieldSpec {
     pub name: String,
